@@ -217,7 +217,12 @@ impl Machine {
             let chunk = match s {
                 Sym::L => {
                     layers += 1;
-                    Some(ChunkSpec::Layer { l: LayerM::image(&format!("L{}", layers - 1)), junk: LayerJunk { default_w: 0, default_h: 0, r1: 0, r2: 0 } })
+                    let mut l = LayerM::image(&format!("L{}", layers - 1));
+                    if layers % 3 == 0 {
+                        // a (childless) group layer: cel chunks and their records may name it like any other layer
+                        l.kind = LayerKind::Group;
+                    }
+                    Some(ChunkSpec::Layer { l, junk: LayerJunk { default_w: 0, default_h: 0, r1: 0, r2: 0 } })
                 }
                 Sym::C | Sym::K => {
                     let l = (0..layers as u16).find(|l| !cels[f].contains(l)).unwrap();
@@ -238,7 +243,7 @@ impl Machine {
                     };
                     let first = tags_emitted;
                     tags_emitted += n;
-                    Some(ChunkSpec::Tags { tags: (first..first + n).map(|k| TagM { from: (k % 7) as u16, to: (k % 7) as u16, dir: 0, repeat: 0, color: 0, name: format!("T{}", k), ud: None }).collect(), reserved: [0; 8], tag_reserved: [0; 6] })
+                    Some(ChunkSpec::Tags { tags: (first..first + n).map(|k| TagM { from: (k % 7) as u16, to: (k % 7) as u16, dir: 0, repeat: 0, color: 0x0011_2233 + k as u32 * 0x0001_0101, name: format!("T{}", k), ud: None }).collect(), reserved: [0; 8], tag_reserved: [0; 6] })
                 }
                 Sym::P4 => Some(ChunkSpec::OldPalette { kind: 4, packets: vec![(0, vec![[1, 2, 3], [4, 5, 6]])] }),
                 Sym::P11 => Some(ChunkSpec::OldPalette { kind: 0x11, packets: vec![(0, vec![[1, 2, 3], [63, 0, 31]])] }),
